@@ -892,7 +892,7 @@ def run_ins_real(ctx, cfg, tmp):
     seed, dims = cfg["seed"], 2
     np.random.seed(seed)
     torch.manual_seed(seed)
-    model = make_model(dims, seed)
+    model = make_model(dims, seed, loffset=cfg.get("offset", 0.0))
     snaps, pre_fin = [], {}
     orig_compute, orig_osfin = ImportanceNestedSampler.compute_stopping_criterion, OrderedSamples.finalise
 
@@ -947,7 +947,7 @@ def run_ins_real(ctx, cfg, tmp):
             try:
                 with open(os.path.join(out, "ckpt.pkl"), "rb") as f:
                     pk = pickle.load(f)
-                model2 = make_model(dims, seed)
+                model2 = make_model(dims, seed, loffset=cfg.get("offset", 0.0))
                 s3 = ImportanceNestedSampler.resume_from_pickled_sampler(pk, model2)
                 fin3_entry = bool(s3.finalised)
                 logZ3, samples3 = s3.nested_sampling_loop()
@@ -988,14 +988,17 @@ def run_ins_real(ctx, cfg, tmp):
                 ctx.oracle_fail(f"ImportanceNestedSampler.compute_stopping_criterion:{k}",
                                 f"iteration {sn['it']}: {k} = {sn['attrs'][k]!r}, standard definition on the stored samples gives {v!r}", c)
         # the same through the exact model (weights as the exact rationals of the stored floats)
-        ws = [Fraction(float(np.exp(np.float64(x)))) for x in (sn["logL"] + sn["logW"])]
+        # (with a likelihood offset the weights are handed to the exact model relative to their maximum: every criterion is
+        #  invariant under a common factor; log_dZ is compared after the same shift)
+        sn["shift"] = float(shift) if cfg.get("offset") else 0.0
+        ws = [Fraction(float(np.exp(np.float64(x - sn["shift"])))) for x in (sn["logL"] + sn["logW"])]
         livemask = np.zeros(n, dtype=int)
         livemask[sn["live"]] = 1
         lines.append(f"loop crit {lst(ws, fr)} {lst(above.astype(int))} {lst(livemask)}")
         exp_rows.append(sn)
     for sn, outl in zip(exp_rows, ctx.model(lines)):
         d = parse_crit(outl)
-        e = expected_from_exact(d, sn["prev_logZ"] if sn["prev_logZ"] is not None else 0.0, sn["it"])
+        e = expected_from_exact(d, (sn["prev_logZ"] - sn["shift"]) if sn["prev_logZ"] is not None else 0.0, sn["it"])
         bad = [k for k in CANON if not (k == "ratio_ns" and not len(sn["nested"])) and not close(sn["attrs"][k], e[k], 1e-8)]
         if bad:
             ctx.disagree("criteria on a real run: exact model differs from the reported values on " + ",".join(bad),
@@ -1095,6 +1098,10 @@ def ins_run_cfgs(ctx, n):
         dict(criterion=["log_dZ", "ratio_ns", "Z_err"], tol=[0.02, 3.0, 1.0], check="any", min=None, cap=7),
         dict(criterion=["fractional_error", "ess", "ratio"], tol=[0.1, 1000.0, 5.0], check="all", min=None, cap=8),
         dict(criterion=["evidence_error", "ratio_all"], tol=[1.09, -1.0], check="any", min=2, cap=8),
+        # an un-normalised likelihood (log Z near -1000 / +900: exp() of it under/overflows in float64): the error-based
+        # criteria must still be their definitions (seeded change C15-d: Z_hat exponentiated in float64)
+        dict(criterion="Z_err", tol=1.05, check="any", min=None, cap=6, offset=-1000.0),
+        dict(criterion=["fractional_error", "ess"], tol=[0.05, 300.0], check="any", min=None, cap=6, offset=900.0),
     ]
     out = []
     for i in range(n):
